@@ -138,6 +138,8 @@ pub struct Online {
     pub reply_bound_ms: Option<u64>,
     /// highest purge boundary already reported per (node, inc)
     purge_seen: HashMap<(u32, u32), u64>,
+    /// (node, inc) -> (highest boundary of a snapshot generated or installed, boundary of the last installed one)
+    snapshots_held: HashMap<(u32, u32), (u64, Option<u64>)>,
     /// index -> command as first applied anywhere (the agreed applied sequence)
     applied_cmds: BTreeMap<u64, d_engine_core::Command>,
     /// index -> term of the entry first seen applied at that index
@@ -225,6 +227,7 @@ impl Online {
             restarted: HashMap::new(),
             reply_bound_ms: None,
             purge_seen: HashMap::new(),
+            snapshots_held: HashMap::new(),
             applied_cmds: BTreeMap::new(),
             applied_terms: HashMap::new(),
             final_state_checks: 0,
@@ -616,12 +619,17 @@ impl Online {
                     self.content_ahead.insert((*node, *inc), (*last_index, c));
                 }
                 self.last_applied.insert((*node, *inc), *last_index);
+                let h = self.snapshots_held.entry((*node, *inc)).or_insert((0, None));
+                h.0 = h.0.max(*last_index);
+                h.1 = Some(*last_index);
                 let e = self.installed_upto.entry((*node, *inc)).or_insert(0);
                 *e = (*e).max(*last_index);
                 self.sig_trace.push(0x5000 + *node as u64);
             }
             Ev::SnapshotGenerate { node, inc, last_index, last_term, sm_last_applied } => {
                 self.counters.snapshots += 1;
+                let h = self.snapshots_held.entry((*node, *inc)).or_insert((0, None));
+                h.0 = h.0.max(*last_index);
                 let e = self.snapshot_content.entry((*last_index, *last_term)).or_insert(0);
                 *e = (*e).max(*sm_last_applied);
                 // C33: the recorded boundary becomes the purge boundary, whose term the leader
@@ -1132,7 +1140,19 @@ impl Online {
         match snapshot_upto {
             Some(s) if s >= boundary => {}
             other => {
-                let sig = if inc > 0 && other.is_none() { "log-purged-but-no-snapshot-held:after-restart" } else if other.is_none() { "log-purged-but-no-snapshot-held" } else { "log-purged-beyond-held-snapshot" };
+                // consequence of the open C06 finding (a follower installs a pushed snapshot that
+                // is older than what it already has): the node had covered this purge with a
+                // snapshot of its own and the install replaced it by an older one
+                let replaced_by_older = matches!((other, self.snapshots_held.get(&(node, inc))), (Some(s), Some((best, Some(li)))) if *best >= boundary && *li == s);
+                let sig = if inc > 0 && other.is_none() {
+                    "log-purged-but-no-snapshot-held:after-restart"
+                } else if other.is_none() {
+                    "log-purged-but-no-snapshot-held"
+                } else if replaced_by_older {
+                    "log-purged-beyond-held-snapshot:own-newer-snapshot-replaced-by-an-older-installed-one"
+                } else {
+                    "log-purged-beyond-held-snapshot"
+                };
                 self.find(t, "C33", sig, json!({"node": node, "inc": inc, "purged_upto": boundary, "snapshot_last_included": other}));
             }
         }
